@@ -76,4 +76,100 @@ theorem encrypt_of_decrypt (ae : AE) (k : ae.Key) (data m : Bytes) (h : decrypt 
         exact hp
       · cases h
 
+/-! ### copy between repositories: every stored blob is a message under its repository's own key -/
+
+/-- every blob in the repository's packs authenticates and decrypts under the repository's OWN key -/
+def BlobRepo.OwnKey {ae : AE} (r : BlobRepo ae) : Prop := ∀ b ∈ r.blobs, ∃ p, decrypt ae r.key b.bytes = .ok p
+
+theorem encodeBlob_decrypts (ae : AE) (z : Zstd) (on : Bool) (k : ae.Key) (nonce data : Bytes) (hn : nonce.length = 16) :
+    ∃ p, decrypt ae k (encodeBlob ae z on k nonce data).1 = .ok p := by
+  cases on
+  · exact ⟨data, by simp [encodeBlob, decrypt_encrypt ae k nonce _ hn]⟩
+  · exact ⟨z.compress data, by simp [encodeBlob, decrypt_encrypt ae k nonce _ hn]⟩
+
+theorem BlobRepo.store_key {ae : AE} (z : Zstd) (r : BlobRepo ae) (nonce : Bytes) (id : Nat) (data : Bytes) :
+    (r.store ae z nonce id data).key = r.key := by
+  unfold BlobRepo.store; split <;> rfl
+
+theorem BlobRepo.store_own {ae : AE} (z : Zstd) (r : BlobRepo ae) (h : r.OwnKey) (nonce : Bytes) (hn : nonce.length = 16)
+    (id : Nat) (data : Bytes) : (r.store ae z nonce id data).OwnKey := by
+  unfold BlobRepo.store
+  split
+  · exact h
+  · intro b hb
+    simp only [List.mem_append, List.mem_singleton] at hb
+    rcases hb with hb | rfl
+    · exact h b hb
+    · exact encodeBlob_decrypts ae z r.zstdOn r.key nonce data hn
+
+theorem copyOne_key (ae : AE) (z : Zstd) (src dst dst' : BlobRepo ae) (nonce : Bytes) (id : Nat)
+    (h : copyOne ae z src dst nonce id = .ok dst') : dst'.key = dst.key := by
+  unfold copyOne at h
+  split at h
+  · cases h; rfl
+  · split at h
+    · cases h; rfl
+    · split at h
+      · cases h
+      · cases h; exact BlobRepo.store_key z dst nonce id _
+
+theorem copyOne_own (ae : AE) (z : Zstd) (src dst dst' : BlobRepo ae) (hd : dst.OwnKey) (nonce : Bytes)
+    (hn : nonce.length = 16) (id : Nat) (h : copyOne ae z src dst nonce id = .ok dst') : dst'.OwnKey := by
+  unfold copyOne at h
+  split at h
+  · cases h; exact hd
+  · split at h
+    · cases h; exact hd
+    · split at h
+      · cases h
+      · cases h; exact BlobRepo.store_own z dst hd nonce hn id _
+
+theorem copyMany_own (ae : AE) (z : Zstd) (nonce : Nat → Bytes) (hn : ∀ i, (nonce i).length = 16) (src : BlobRepo ae)
+    (ids : List Nat) : ∀ (dst : BlobRepo ae) (c : Nat), dst.OwnKey →
+      (copyMany ae z nonce src dst c ids).1.OwnKey ∧ (copyMany ae z nonce src dst c ids).1.key = dst.key := by
+  induction ids with
+  | nil => intro dst c hd; exact ⟨hd, rfl⟩
+  | cons id ids ih =>
+    intro dst c hd
+    unfold copyMany
+    split
+    · exact ⟨hd, rfl⟩
+    · rename_i dst' hok
+      obtain ⟨h1, h2⟩ := ih dst' (c + 1) (copyOne_own ae z src dst dst' hd (nonce c) (hn c) id hok)
+      exact ⟨h1, h2.trans (copyOne_key ae z src dst dst' (nonce c) id hok)⟩
+
+/-- both repositories of the pair -/
+def TwoRepos.OwnKey {ae : AE} (s : TwoRepos ae) : Prop := s.a.OwnKey ∧ s.b.OwnKey
+
+theorem stepCopy_own (ae : AE) (z : Zstd) (nonce : Nat → Bytes) (hn : ∀ i, (nonce i).length = 16) (s : TwoRepos ae)
+    (h : s.OwnKey) (c : CopyCmd) :
+    (stepCopy ae z nonce s c).OwnKey ∧ (stepCopy ae z nonce s c).a.key = s.a.key ∧ (stepCopy ae z nonce s c).b.key = s.b.key := by
+  obtain ⟨ha, hb⟩ := h
+  cases c with
+  | add toB id data =>
+    cases toB
+    · exact ⟨⟨BlobRepo.store_own z s.a ha _ (hn _) id data, hb⟩, BlobRepo.store_key z s.a _ id data, rfl⟩
+    · exact ⟨⟨ha, BlobRepo.store_own z s.b hb _ (hn _) id data⟩, rfl, BlobRepo.store_key z s.b _ id data⟩
+  | copy toB ids =>
+    cases toB
+    · obtain ⟨h1, h2⟩ := copyMany_own ae z nonce hn s.b ids s.a s.ctr ha
+      exact ⟨⟨h1, hb⟩, h2, rfl⟩
+    · obtain ⟨h1, h2⟩ := copyMany_own ae z nonce hn s.a ids s.b s.ctr hb
+      exact ⟨⟨ha, h1⟩, rfl, h2⟩
+  | setCompression toB on =>
+    cases toB
+    · exact ⟨⟨ha, hb⟩, rfl, rfl⟩
+    · exact ⟨⟨ha, hb⟩, rfl, rfl⟩
+
+theorem runCopy_own (ae : AE) (z : Zstd) (nonce : Nat → Bytes) (hn : ∀ i, (nonce i).length = 16) (cmds : List CopyCmd) :
+    ∀ s : TwoRepos ae, s.OwnKey →
+      (runCopy ae z nonce s cmds).OwnKey ∧ (runCopy ae z nonce s cmds).a.key = s.a.key ∧ (runCopy ae z nonce s cmds).b.key = s.b.key := by
+  induction cmds with
+  | nil => intro s h; exact ⟨h, rfl, rfl⟩
+  | cons c cs ih =>
+    intro s h
+    obtain ⟨h1, h2, h3⟩ := stepCopy_own ae z nonce hn s h c
+    obtain ⟨i1, i2, i3⟩ := ih (stepCopy ae z nonce s c) h1
+    exact ⟨i1, i2.trans h2, i3.trans h3⟩
+
 end Rustic.Codec
